@@ -1,10 +1,13 @@
 /-
   C04, Squeeth part — a rejected vault operation leaves wallet, vaults, pool positions and the action list intact.
   The public vault operations (open_deposit_mint, deposit, deposit/withdraw_uni_position, burn_and_withdraw,
-  liquidate) run inside `SqueethMarket._atomic`; `update` is a loop of such transactions.  Proved for every
-  arithmetic context.
+  liquidate) run inside `SqueethMarket._atomic`; `update` is a loop of such transactions.  The long side
+  (`buy_squeeth` / `sell_squeeth`) has no transaction wrapper: it is the pool's `buy` / `sell`, which make every check
+  and every computation that can raise before the first wallet movement — their atomicity (Proofs/Lemmas/UniAtomic) is
+  carried over.  Proved for every arithmetic context.
 -/
 import Proofs.Lemmas.Squeeth
+import Proofs.Lemmas.SqueethLong
 namespace Demeter
 open Squeeth Gen
 
@@ -41,6 +44,48 @@ theorem C04_squeeth_accepted_is_body (cx : NumCtx) (e : Env) (s : State) (op : O
   split at h
   · rename_i hop; simp only [hop, if_true]; exact (atomic_ok h).2
   · rename_i hop; simp only [hop]; rfl
+
+/-- **a rejected `buy_squeeth` / `sell_squeeth` leaves the whole state unchanged**: both parameter forms, every rejection
+    cause (no amount at all, a zero squeeth-row price under an ETH amount, negative amount, more than the wallet holds, token
+    missing from the wallet, zero pool price), every state, every context -/
+theorem C04_squeeth_rejected_trade_leaves_state_intact (cx : NumCtx) (e : Env) (s : State) (op : Op)
+    (hop : op.isTrade = true) (h : (step cx e s op).err ≠ none) : (step cx e s op).st = s := by
+  cases op with
+  | buy o q => exact buy_rejected cx e s o q h
+  | sell o q => exact sell_rejected cx e s o q h
+  | _ => simp [Op.isTrade] at hop
+
+/-- … and returns nothing -/
+theorem C04_squeeth_rejected_trade_returns_nothing (cx : NumCtx) (e : Env) (s : State) (op : Op)
+    (hop : op.isTrade = true) (h : (step cx e s op).err ≠ none) : (step cx e s op).out = [] := by
+  have key : ∀ (r : Uni.Res), (fromUni s r).err ≠ none → (fromUni s r).out = [] := by
+    intro r hr
+    unfold fromUni at hr ⊢
+    cases h1 : r.1 with
+    | ok v => simp [h1] at hr
+    | error er => simp [Res.fail]
+  cases op with
+  | buy o q =>
+    simp only [step, stepBody, Op.isAtomic, Bool.false_eq_true, if_false, buySqueethOp] at h ⊢
+    split
+    · rfl
+    · rfl
+    · rename_i a ha; rw [ha] at h; exact key _ h
+  | sell o q =>
+    simp only [step, stepBody, Op.isAtomic, Bool.false_eq_true, if_false, sellSqueethOp] at h ⊢
+    split
+    · rfl
+    · rfl
+    · rename_i a ha; rw [ha] at h; exact key _ h
+  | _ => simp [Op.isTrade] at hop
+
+/-- **every operation a strategy can call on the Squeeth market** — the vault operations and the long side — leaves the state
+    unchanged when it is rejected -/
+theorem C04_squeeth_user_operation_rejected_leaves_state_intact (cx : NumCtx) (e : Env) (s : State) (op : Op)
+    (hop : op.isAtomic = true ∨ op.isTrade = true) (h : (step cx e s op).err ≠ none) : (step cx e s op).st = s := by
+  rcases hop with hop | hop
+  · exact C04_squeeth_rejected_leaves_state_intact cx e s op hop h
+  · exact C04_squeeth_rejected_trade_leaves_state_intact cx e s op hop h
 
 namespace Squeeth
 /-- states reachable from `s` by accepted `liquidate` transactions -/
@@ -115,6 +160,20 @@ example : c04Cause (.burnWithdraw 9 1 1) = some "vault-not-exist" := by decide +
 example : c04Cause (.liquidate 1) = some "safe-vault" := by decide +kernel
 example : c04Cause (.liquidate 9) = some "vault-not-exist" := by decide +kernel
 example : c04Cause (.uniRemove (18000, 21000)) = some "transferred-out" := by decide +kernel
+-- the long side: no amount, more than the wallet holds (WETH for a buy, oSQTH for a sell), negative amounts, a zero price
+example : c04Cause (.buy none none) = some "amount-none" := by decide +kernel
+example : c04Cause (.sell none none) = some "amount-none" := by decide +kernel
+example : c04Cause (.buy (some 1000) none) = some "uni:AssertionError" := by decide +kernel
+example : c04Cause (.buy none (some 100)) = some "uni:AssertionError" := by decide +kernel
+example : c04Cause (.sell (some 6) none) = some "uni:AssertionError" := by decide +kernel
+example : c04Cause (.buy (some (-1)) none) = some "uni:DemeterError" := by decide +kernel
+example : c04Cause (.sell none (some (-1))) = some "uni:DemeterError" := by decide +kernel
+example : ((step NumCtx.py { c04Env with osqth := 0 } c04State (.buy none (some 1))).err.map Err.cause) = some "uni:DivisionByZero" := by decide +kernel
+example : ((step NumCtx.py { c04Env with uniPrice := 0 } c04State (.buy (some 1) none)).err.map Err.cause) = some "uni:DivisionByZero" := by decide +kernel
+example : (step NumCtx.py c04Env c04State (.buy (some 1000) none)).st = c04State := by decide +kernel
+-- … while a trade the wallet can pay is accepted and does change it (a closed pool does not refuse it)
+example : (step NumCtx.py { c04Env with uniOpen := false } c04State (.buy (some 10) none)).err = none := by decide +kernel
+example : (step NumCtx.py c04Env c04State (.sell none (some (1/10)))).st.wallet ≠ c04State.wallet := by decide +kernel
 -- and in each of them the state is untouched, e.g.
 example : (step NumCtx.py c04Env c04State (.openMint 1 66 none none)).st = c04State := by decide +kernel
 
